@@ -130,6 +130,21 @@ def condTrueThrough (g : Graph) (c : Nat) (a b : Pred) : Bool :=
 /-- no inline (non-deferred) node satisfies `p` -/
 def noInline (g : Graph) (p : Pred) : Bool := !(g.any fun n => p n && n.deferred == 0)
 
+/-- STRICT reachability (answers `false` when out of fuel): some path from the nodes in `work` reaches a `target` node -/
+def reach (g : Graph) (target : Pred) : Nat → List Nat → List Nat → Bool
+  | 0, _, _ => false
+  | _, [], _ => false
+  | fuel + 1, i :: work, seen =>
+    if seen.contains i then reach g target fuel work seen
+    else match g.node i with
+      | none => reach g target fuel work (i :: seen)
+      | some n => if target n then true else reach g target fuel (n.succ ++ work) (i :: seen)
+
+/-- every `sync.Cond.Wait` of the function lies on a cycle of its control-flow graph, i.e. is re-executed in a loop
+    (the classical rule: the condition must be re-checked after every wake-up, because wake-ups may be for someone else) -/
+def waitsInLoops (g : Graph) : Bool :=
+  (g.filter (isKind K.condwait)).all fun n => reach g (fun m => m.id == n.id) (fuelOf g) n.succ []
+
 /-- there is no path a →* b →* c -/
 def noneBetween (g : Graph) (a c b : Pred) : Bool := never g a b || never g b c
 
